@@ -45,7 +45,7 @@ import (
 // case description (also the replay format)
 
 type kase struct {
-	Kind   string `json:"kind"` // honest | flip | torsion | alts | qn | nodegrid
+	Kind   string `json:"kind"` // honest | flip | torsion | alts | qn | nodegrid | seq | dirty
 	Key    int    `json:"key"`
 	Series string `json:"series"` // ctr | len
 	I      int64  `json:"i"`
@@ -62,6 +62,11 @@ type kase struct {
 	Height uint64 `json:"height,omitempty"`
 	WM     uint64 `json:"working_miners,omitempty"`
 	TS     uint64 `json:"total_stake,omitempty"`
+	// seq / dirty
+	Fn  string `json:"fn,omitempty"`
+	Seq []int  `json:"seq,omitempty"` // seq: pool entries A,B[,C] (entry = 2*item+variant); dirty: destination content, decoded value
+	// seq: the sequences this worker ran before (they define the state the case starts from)
+	History []histEntry `json:"history,omitempty"`
 	// informative
 	PK    string `json:"pk,omitempty"`
 	Msg   string `json:"msg,omitempty"`
@@ -708,7 +713,7 @@ func nodeGridCase(b *base, h, wm, ts uint64) result {
 			r.fail("C16:node:verifier-qualifies-unqualified", "nodegrid",
 				"proposer side genProve: not qualified; verifier side verifyBlockVRF on the transported header: accepted with qn=%d (lz=%d height=%d wm=%d ts=%d proof=%x)", qnHdr, b.lz, h, wm, ts, []byte(b.proof))
 		case okP:
-			r.out(fmt.Sprintf("nodegrid:both-qualified:qn%d", qnP))
+			r.out("nodegrid:both-qualified")
 		default:
 			r.out("nodegrid:both-unqualified")
 		}
@@ -931,6 +936,9 @@ func run(c *fw.Ctx) {
 			}
 		}
 	}
+	if !capped && !runSeq(c, &idx) {
+		stop("time budget: sequence oracles incomplete")
+	}
 	for k := 0; k < nKeys && !capped; k++ {
 		for _, series := range []string{"ctr", "len"} {
 			n := sz.N
@@ -975,12 +983,19 @@ func run(c *fw.Ctx) {
 }
 
 func replay(c *fw.Ctx, raw json.RawMessage) {
+	if c.ConcReplay(raw) {
+		return
+	}
 	var ks kase
 	if err := json.Unmarshal(raw, &ks); err != nil {
 		panic(err)
 	}
 	setup()
 	buildTorsion()
+	if ks.Kind == "seq" || ks.Kind == "dirty" {
+		replaySeq(c, ks)
+		return
+	}
 	if ks.Kind == "selfcheck" {
 		if torsErr != "" {
 			c.Violation("C16:curve:torsion-selfcheck", "torsion", torsErr, ks)
@@ -1020,7 +1035,9 @@ func main() {
 			"for the first B messages of every key and every proof with a leading zero byte: all single-bit flips of proof/public key/message (direct and transported); " +
 			"adversarial prover: 8 small-order points x nonces 1..K x every guess of c*T, plus s+L; qualification grid 8 heights x 7 workingMiners x 10 totalStakes " +
 			"against an exact big.Rat model, and the same grid proposer (genProve) against verifier (verifyBlockVRF on the marshalled header); " +
-			"7 stored witnesses (6 proofs with two leading zero bytes, 1 with 00 followed by a byte >= 0x80) regenerated and taken through every part. Every case is distinct by construction; non-trivial = an honest proof taken through both paths, a mutant submitted to the verifier, " +
+			"7 stored witnesses (6 proofs with two leading zero bytes, 1 with 00 followed by a byte >= 0x80) regenerated and taken through every part; " +
+			"sequence oracles: for 13 functions all ordered pairs over 12 pool entries and all ordered triples over 4 (result stability after later calls and caller-side overwrites, arguments unchanged, " +
+			"same result on re-use), and dirty-destination decoding of points over all ordered pairs of a pool of valid/invalid encodings. Every case is distinct by construction; non-trivial = an honest proof taken through both paths, a mutant submitted to the verifier, " +
 			"a crafted proof whose challenge is consistent with the guess (i.e. actually submitted), a grid point evaluated (panics on workingMiners>totalStake excluded).",
 		Assumptions: []string{
 			"the repository's own curve/scalar arithmetic is used to build adversarial proofs (only through the group law; small-order table self-checked by repeated addition)",
